@@ -26,6 +26,15 @@ MIN = {"growth_monitor": (30, 30), "escape_parse": (100000, 1000000), "escape_wr
 ALPHA = ["@a", "@comment", "@string", "@preamble", "{", "}", '"', ",", "=", "\n", " ", "\\", "x", "#"]
 
 
+HOSTILE_NAMES = ["x\\{y", "x\\}y", "\\{", "\\}", "x\\{\\}y", "\\}\\{", "{0}", "{}", "%s", "%(k)s", "%d", "%", "x%", "{x", "x}", "{x}", "a{b}c", "\\", "x\\", "\\\\", "$1",
+                 "\\1", "\\g<0>", "(", ")", "[", "]", "a(b", "a[b", "*", "+", "?", "a|b", "^", "$", ".", "\\d", "\\N{X}", "\\x", "\\u12", "'", "\\'", "`", "a'b", "é", "İ", "ß", "\u00a0", "\ufeff",
+                 "\u2028", "\x0b", "\x0c", "\x1c", "\x85", "\u3000", "#", "x#y", "a=b", "=", "a b", "key with blanks", "\"", "a\"b", "\"x\"", "@", "x@y", "@x", ",", "None", "True", "0", "-1", "__class__",
+                 "__dict__", "ID", "ENTRYTYPE", "\\\"", "\\,", "\\=", "\\@", "\\#", "x\\ y", "\t", "x\ty", "\r", "x" * 300, "é" * 70, "\\{" * 40, "\\\\" * 40 + "\\}"]
+NAME_SHAPES = ["@a{%s, t = 1}", "@a{%s, t = 1}\n@a{%s, t = 2}", "@a{%s}\n@b{%s}\n@a{%s,}", "@string{%s = {v}}", "@string{%s = {v}}\n@string{%s = \"w\"}\n@a{k, t = %s}",
+               "@a{k, %s = 1}", "@a{k, %s = 1, %s = {2}}", "@a{k, t = 1, %s = 1, u = 2, %s = 3, %s = 4}", "@%s{k, t = 1}", "@%s{k, t = 1}\n@%s{k, t = 2}", "@a{k, t = %s}",
+               "@a{k, t = %s # %s}", "@a{%s, %s = %s}\n@a{%s, %s = %s}", "@string{%s = %s}\n@string{%s = %s}", "@a{%s, t = {x}\n@a{%s, t = {y}}\n@a{%s, t = {z}}"]
+
+
 def _L(tier):
     return tier_pick(tier, 5, 6)
 
@@ -168,6 +177,14 @@ def cases(tier, seed, shard, nshards):
             j += 1
             if j % nshards == shard:
                 yield {"k": "dict", "text": sh.replace("%s", lit)}
+    # hostile texts in every NAME position (block type, entry key, @string key, field key), once and repeated: names
+    # reach error messages, dict keys, format templates and regexes that ordinary values never reach (seed C01-g)
+    j = 0
+    for name in HOSTILE_NAMES:
+        for sh in NAME_SHAPES:
+            j += 1
+            if j % nshards == shard:
+                yield {"k": "names", "text": sh.replace("%s", name)}
     r = rng_for(seed, shard, "c01")
     n = tier_pick(tier, 40000, 1000000) // nshards
     for i in range(n):
